@@ -114,8 +114,7 @@ fn new_machine() -> Machine {
     MachineBuilder::default().build()
 }
 
-fn run_queries(m: &mut Machine, job: &Value) -> Value {
-    let max_answers = job.get("max_answers").and_then(|v| v.as_u64()).unwrap_or(50) as usize;
+fn consult_job(m: &mut Machine, job: &Value) {
     if let Some(c) = job.get("consult").and_then(|v| v.as_str()) {
         let module = job.get("module").and_then(|v| v.as_str()).unwrap_or("user");
         m.consult_module_string(module, c.to_string());
@@ -124,35 +123,71 @@ fn run_queries(m: &mut Machine, job: &Value) -> Value {
         let module = job.get("module").and_then(|v| v.as_str()).unwrap_or("user");
         m.load_module_string(module, c.to_string());
     }
+}
+
+fn panic_msg(e: Box<dyn std::any::Any + Send>) -> String {
+    if let Some(s) = e.downcast_ref::<String>() {
+        s.clone()
+    } else if let Some(s) = e.downcast_ref::<&str>() {
+        s.to_string()
+    } else {
+        "panic".to_string()
+    }
+}
+
+fn run_one_query(m: &mut Machine, q: &str, max_answers: usize) -> Value {
+    let mut answers = Vec::new();
+    let mut more = false;
+    {
+        let mut it = m.run_query(q.to_string());
+        loop {
+            if answers.len() >= max_answers {
+                more = true;
+                break;
+            }
+            match it.next() {
+                None => break,
+                Some(a) => {
+                    let stop = a.is_err() || matches!(a, Ok(LeafAnswer::Exception(_)));
+                    answers.push(answer_json(&a));
+                    if stop {
+                        break;
+                    }
+                }
+            }
+        }
+    }
+    if more {
+        answers.push(json!("more"));
+    }
+    Value::Array(answers)
+}
+
+// Every query runs under its own catch_unwind; after a panic the machine is rebuilt
+// (and the job's program consulted again) before the next query.
+fn run_queries(machine: &mut Option<Machine>, job: &Value) -> Value {
+    let max_answers = job.get("max_answers").and_then(|v| v.as_u64()).unwrap_or(50) as usize;
+    let r = catch_unwind(AssertUnwindSafe(|| consult_job(machine.as_mut().unwrap(), job)));
+    if let Err(e) = r {
+        *machine = None;
+        return json!({"consult_panic": panic_msg(e)});
+    }
     let mut results = Vec::new();
     if let Some(qs) = job.get("queries").and_then(|v| v.as_array()) {
         for q in qs {
             let q = q.as_str().unwrap_or("");
-            let mut answers = Vec::new();
-            let mut more = false;
-            {
-                let mut it = m.run_query(q.to_string());
-                loop {
-                    if answers.len() >= max_answers {
-                        more = true;
-                        break;
-                    }
-                    match it.next() {
-                        None => break,
-                        Some(a) => {
-                            let stop = a.is_err() || matches!(a, Ok(LeafAnswer::Exception(_)));
-                            answers.push(answer_json(&a));
-                            if stop {
-                                break;
-                            }
-                        }
-                    }
+            if machine.is_none() {
+                *machine = Some(new_machine());
+                let _ = catch_unwind(AssertUnwindSafe(|| consult_job(machine.as_mut().unwrap(), job)));
+            }
+            let r = catch_unwind(AssertUnwindSafe(|| run_one_query(machine.as_mut().unwrap(), q, max_answers)));
+            match r {
+                Ok(v) => results.push(v),
+                Err(e) => {
+                    *machine = None;
+                    results.push(json!([{"panic": panic_msg(e)}]));
                 }
             }
-            if more {
-                answers.push(json!("more"));
-            }
-            results.push(Value::Array(answers));
         }
     }
     Value::Array(results)
@@ -178,26 +213,10 @@ fn mode_query(jobs_path: &str, out_path: &str) {
         }
         wd.arm(&id, timeout_ms);
         let t0 = Instant::now();
-        let res = {
-            let m = machine.as_mut().unwrap();
-            catch_unwind(AssertUnwindSafe(|| run_queries(m, &job)))
-        };
+        let res = run_queries(&mut machine, &job);
         wd.disarm();
         let ms = t0.elapsed().as_millis() as u64;
-        let rec = match res {
-            Ok(v) => json!({"id": id, "results": v, "ms": ms}),
-            Err(e) => {
-                machine = None;
-                let msg = if let Some(s) = e.downcast_ref::<String>() {
-                    s.clone()
-                } else if let Some(s) = e.downcast_ref::<&str>() {
-                    s.to_string()
-                } else {
-                    "panic".to_string()
-                };
-                json!({"id": id, "panic": msg, "ms": ms})
-            }
-        };
+        let rec = json!({"id": id, "results": res, "ms": ms});
         // append + flush per record so that a later hard exit loses nothing
         let mut out = BufWriter::new(std::fs::OpenOptions::new().append(true).open(out_path).unwrap());
         writeln!(out, "{}", rec).unwrap();
